@@ -57,6 +57,8 @@ func main() {
 			os.Exit(2)
 		}
 		os.Exit(mc.RunReplay(&r))
+	case "kworker":
+		mc.KWorkerMain(os.Args[2], os.Args[3])
 	case "trace":
 		os.Exit(mc.RunTrace(os.Args[2], os.Args[3], os.Args[4:]))
 	default:
